@@ -52,6 +52,8 @@ type Engine struct {
 	// Ghosts are ids that were recently deleted, or created by a transaction that rolled back: references
 	// to them are generated on purpose (stale caches, dangling references).
 	Ghosts map[string][]string
+	// id universes (default: the disjoint hostile pools of schema.go)
+	EmpPool, DeptPool []string
 }
 
 func NewEngine(c *core.Ctx, cfg Config) (*Engine, error) {
@@ -61,7 +63,7 @@ func NewEngine(c *core.Ctx, cfg Config) (*Engine, error) {
 	if err != nil {
 		return nil, err
 	}
-	return &Engine{C: c, Cfg: cfg, Sc: sc, Db: db, Path: path, M: NewModel(cfg), W: DefaultWeights(), Ghosts: map[string][]string{}}, nil
+	return &Engine{C: c, Cfg: cfg, Sc: sc, Db: db, Path: path, M: NewModel(cfg), W: DefaultWeights(), Ghosts: map[string][]string{}, EmpPool: EmpIds, DeptPool: DeptIds}, nil
 }
 
 func (e *Engine) Close() {
@@ -382,9 +384,9 @@ func (e *Engine) existing(m *Model, t string) []string {
 }
 
 func (e *Engine) pickId(r *core.Rand, m *Model, t string, pExisting float64) string {
-	pool := EmpIds
+	pool := e.EmpPool
 	if t == Depts {
-		pool = DeptIds
+		pool = e.DeptPool
 	}
 	ex := e.existing(m, t)
 	if len(ex) > 0 && r.P(pExisting) {
@@ -462,12 +464,12 @@ func (e *Engine) genEmpV(r *core.Rand, m *Model, hostile bool) map[string]any {
 	if r.P(0.08) {
 		v["dept"] = nil
 	} else {
-		v["dept"] = e.pickRef(r, m, Depts, DeptIds) // may be missing
+		v["dept"] = e.pickRef(r, m, Depts, e.DeptPool) // may be missing
 	}
 	if r.P(0.45) {
 		v["boss"] = nil
 	} else {
-		v["boss"] = e.pickRef(r, m, Emps, EmpIds)
+		v["boss"] = e.pickRef(r, m, Emps, e.EmpPool)
 	}
 	if r.P(0.3) {
 		v["grade"] = nil
@@ -626,9 +628,9 @@ func (e *Engine) GenOp(r *core.Rand, m *Model, hostile bool) Op {
 	case "addlinks", "removelinks", "setlinks":
 		store := core.Pick(r, []string{Emps, Depts})
 		ot := Depts
-		opool := DeptIds
+		opool := e.DeptPool
 		if store == Depts {
-			ot, opool = Emps, EmpIds
+			ot, opool = Emps, e.EmpPool
 		}
 		ex := e.existing(m, ot)
 		var others []string
@@ -647,9 +649,9 @@ func (e *Engine) GenOp(r *core.Rand, m *Model, hostile bool) Op {
 	case "addlink", "removelink", "rcinc", "rcdec", "rcset":
 		store := core.Pick(r, []string{Emps, Depts})
 		ot := Depts
-		opool := DeptIds
+		opool := e.DeptPool
 		if store == Depts {
-			ot, opool = Emps, EmpIds
+			ot, opool = Emps, e.EmpPool
 		}
 		ex := e.existing(m, ot)
 		other := core.Pick(r, opool)
@@ -679,9 +681,9 @@ func (e *Engine) GenOp(r *core.Rand, m *Model, hostile bool) Op {
 }
 
 func (e *Engine) pickFreeId(r *core.Rand, m *Model, t string, pExisting float64) string {
-	pool := EmpIds
+	pool := e.EmpPool
 	if t == Depts {
-		pool = DeptIds
+		pool = e.DeptPool
 	}
 	if r.P(pExisting) {
 		return core.Pick(r, pool)
